@@ -80,8 +80,29 @@ impl Rng {
     }
 }
 
+/// Heartbeat for the orchestrator: a line on stdout, at most one every few seconds, whenever a guarded library call
+/// has returned.  The orchestrator reports a hang when the driver burns processor time with neither a finished event
+/// nor a heartbeat -- that is, while a single library call is still running.
+pub fn heartbeat() {
+    use std::sync::atomic::{AtomicU64, Ordering};
+    static LAST: AtomicU64 = AtomicU64::new(0);
+    let now = std::time::SystemTime::now().duration_since(std::time::UNIX_EPOCH).map_or(0, |d| d.as_secs());
+    let last = LAST.load(Ordering::Relaxed);
+    if now >= last + 3 {
+        LAST.store(now, Ordering::Relaxed);
+        println!("progress {now}");
+        let _ = std::io::stdout().flush();
+    }
+}
+
 /// Run a closure, turning a panic into `Err(payload text)`.
 pub fn guard<T>(f: impl FnOnce() -> T) -> Result<T, String> {
+    let r = guard_inner(f);
+    heartbeat();
+    r
+}
+
+fn guard_inner<T>(f: impl FnOnce() -> T) -> Result<T, String> {
     match catch_unwind(AssertUnwindSafe(f)) {
         Ok(v) => Ok(v),
         Err(p) => {
